@@ -84,7 +84,7 @@ def check(run):
     spec_by_unit = {}
     n = 3000 if thorough else 450
     for i in range(n):
-        s = strgen.build(r, "R%d" % i, ["EnumString"], allow_default=False)
+        s = strgen.build(r, "R%d" % i, ["EnumString"], allow_default=False, allow_disabled_default=True)
         if i % 5 == 4:
             g = c01.glue(s)           # control: standard error
             tag = "std-error"
@@ -96,7 +96,7 @@ def check(run):
         units.append(u)
         spec_by_unit[u.name] = s
     for i in range(1000 if thorough else 180):
-        s = strgen.build(r, "P%d" % i, ["EnumString"], allow_default=False, fieldless=True)
+        s = strgen.build(r, "P%d" % i, ["EnumString"], allow_default=False, fieldless=True, allow_disabled_default=True)
         s.use_phf = True
         s.std_derives = ["Debug", "PartialEq", "Clone"]
         k = ERR_KINDS[i % len(ERR_KINDS)]
@@ -107,6 +107,31 @@ def check(run):
     samples = standard_flow(run, units, deps["std"], vmon, profiles=("fast",), tag="c18")
     s2 = standard_flow(run, units_phf, deps["phf"], vmon, profiles=("fast",), tag="c18p")
     samples.update(s2)
+    # the custom-error arm must also exist where there is no std: compile-only differential (std vs #![no_std]) on enums with
+    # a core-only error type, reusing C19's machinery
+    from . import c19
+    nspecs = []
+    guard = 0
+    while len(nspecs) < (120 if thorough else 30) and guard < 4000:
+        guard += 1
+        ns = c19.fam_data(r, "NS%d" % guard)
+        if ns is not None and ns.parse_err:
+            ns.derives = ["EnumString"]
+            ns.extra_enum_attrs = []
+            nspecs.append(ns)
+    dn = core.build_deps("nostd")
+    base = c19.compile_cfg(run, nspecs, "d_std", deps["std"])
+    nost = c19.compile_cfg(run, nspecs, "a_nostd", dn)
+    for ns in nspecs:
+        if base[ns.name] is not None:
+            continue
+        run.evaluations += 1
+        run.distinct += 1
+        run.count("nostd-custom-error/compiled")
+        if nost[ns.name] is not None:
+            summ, src, rendered = nost[ns.name]
+            run.violation("custom-error:nostd:%s" % shards.norm_msg(summ), "EnumString with parse_err_ty/parse_err_fn compiles with std but not under #![no_std]: %s" % summ,
+                          detail={"enum": ns.render(), "diagnostics": rendered}, replay_src=src, replay_meta={"kind": "compile", "config": "a_nostd"})
     c01.offline_recheck(run, samples, spec_by_unit)
     pick_samples(run, samples, {u.name: u for u in units + units_phf})
     run.extra["programs"] = len(units) + len(units_phf)
